@@ -658,6 +658,86 @@ def run_clone_case(case, C, sets, soft):
                 raise Violation(f"{entry}:value-mapper", f"{desc}: value_mapper lacks a result")
         bump("mapper_checks")
 
+    # ---- mapper reuse: further clones of the SAME source through the SAME caller-owned mapper pair (what loop unrolling
+    # and repeated inlining do). Every later copy must again be a complete, equivalent copy that uses only its own
+    # values; the mappers must then describe the LATEST copy; earlier copies, the source and all other roots must not
+    # move; pre-seeded caller mappings for outside values must still be honoured.
+    copies = [copy]
+    if vm is not None and entry != "region.clone":
+        for rep in range(1, 1 + case.get("repeats", 2)):
+            rdesc = f"{desc} [clone #{rep + 1} through the same mappers]"
+            roots = list({id(r): r for r in roots}.values())
+            before_all = [canon_ir(r, with_hints=True, normalise=False, with_loc=True) for r in roots]
+            bump("mapper_reuse_calls")
+            if entry == "op.clone":
+                cpy = src.clone(vm, bm, **kw)
+            elif entry == "op.clone_without_regions":
+                cpy = src.clone_without_regions(vm, bm, **kw)
+            else:
+                pre2 = region_blocks(dest)
+                idx2 = None if index is None else min(index, len(pre2))
+                src.clone_into(dest, idx2, vm, bm, **kw)
+                now = region_blocks(dest)
+                k = len(region_blocks(src))
+                eff = len(pre2) if idx2 is None else idx2
+                nb = now[eff:eff + k]
+                if [id(b) for b in now[:eff] + now[eff + k:]] != [id(b) for b in pre2]:
+                    raise Violation("clone_into:block-placement", f"{rdesc}: destination block list is not pre[:i]+new+pre[i:]")
+                cpy = Region()
+                for b in nb:
+                    dest.detach_block(b)
+                cpy.add_block(nb)
+            got = canon_ir(cpy, normalise=False)
+            if got != expected:
+                raise Violation(f"{entry}:mapper-reuse:copy-not-equivalent",
+                                f"{rdesc}: canonical form of the later copy differs from the source: {first_diff(expected, got)}")
+            got_h2 = canon_ir(cpy, with_hints=True, normalise=False, with_loc=True)
+            if got_h2 != got_h:
+                raise Violation(f"{entry}:mapper-reuse:copies-differ", f"{rdesc}: later copy differs from the first copy: "
+                                f"{first_diff(got_h, got_h2)}")
+            after_all = [canon_ir(r, with_hints=True, normalise=False, with_loc=True) for r in roots]
+            for i, (a, b) in enumerate(zip(before_all, after_all)):
+                if a != b:
+                    which = "source-tree" if roots[i] is built.root else "earlier-copy" if any(roots[i] is c for c in copies) \
+                        else "destination-tree" if roots[i] is dest_root else "other-root"
+                    raise Violation(f"{entry}:mapper-reuse:{which}-modified", f"{rdesc}: {which} changed: {first_diff(a, b)}")
+            roots.append(cpy)
+            try:
+                check_tree(roots)  # closed world: an earlier copy gaining a use from the later one is a stale/missing use
+            except Broken as e:
+                raise Violation(f"{entry}:mapper-reuse:irsan", f"{rdesc}: IR sanitizer: {e}")
+            k_ops, k_blocks, k_regions, k_values = collect(cpy)
+            seen_ids = src_ids | {id(x) for c in copies for part in collect(c) for x in part}
+            if any(id(x) in seen_ids for x in k_ops + k_blocks + k_regions + k_values):
+                raise Violation(f"{entry}:mapper-reuse:shared-node", f"{rdesc}: later copy shares a node with the source or an earlier copy")
+            inner_ids = {id(v) for v in k_values}
+            foreign = {id(v) for c in copies for v in collect(c)[3]}
+            for o in k_ops:
+                for x in o._operands:
+                    if id(x) in foreign:
+                        raise Violation(f"{entry}:mapper-reuse:uses-earlier-copy", f"{rdesc}: an op of the later copy uses a value of an earlier copy")
+            if entry == "op.clone_without_regions":
+                pairs_v, pairs_b = list(zip(src.results, cpy.results)), []
+            else:
+                pairs_v, pairs_b = list(zip(s_values, k_values)), list(zip(s_blocks, k_blocks))
+            for a, b in pairs_v:
+                if vm.get(a) is not b:
+                    raise Violation(f"{entry}:mapper-reuse:value-mapper", f"{rdesc}: value_mapper does not map an internal value to the LATEST copy")
+            for a, b in pairs_b:
+                if bm.get(a) is not b:
+                    raise Violation(f"{entry}:mapper-reuse:block-mapper", f"{rdesc}: block_mapper does not map an internal block to the LATEST copy")
+            for k0, v0 in seeded_vm.items():
+                if vm.get(k0) is not v0:
+                    raise Violation(f"{entry}:mapper-reuse:value-mapper", f"{rdesc}: pre-seeded value_mapper entry was overwritten")
+            for k0, v0 in seeded_bm.items():
+                if bm.get(k0) is not v0:
+                    raise Violation(f"{entry}:mapper-reuse:block-mapper", f"{rdesc}: pre-seeded block_mapper entry was overwritten")
+            copies.append(cpy)
+            bump("mapper_reuse_copies_equivalent")
+        if s_values and len(copies) > 1:
+            bump("mapper_reuse_histories_with_internal_values")
+        copy = prng.choice(copies)  # the independence history below edits any one of the copies; the others are roots
+
     # ---- independence: edit the copy, the source must not move; then edit the source, the copy must not move
     erng = random.Random(case["edit_seed"])
     ed = Editor(erng, [copy], [v for v in built.outside], C)
@@ -996,14 +1076,14 @@ def run_apply_case(ctx, module, pname, pinst, fail_seed, C, text_for_witness, ou
 def plan(tier, seed):
     jobs = []
     if tier == "quick":
-        n_clone, per, n_pass, pper = 24, 140, 12, 260
+        n_clone, per, n_pass, pper = 16, 180, 8, 160
     else:
         n_clone, per, n_pass, pper = 64, 1000, 32, 4000
     for i in range(n_clone):
         jobs.append({"kind": "clone", "seed": seed * 100003 + i, "n": per, "tier": tier})
     for i in range(n_pass):
         jobs.append({"kind": "pass", "seed": seed * 100003 + 7919 + i, "n": pper, "shard": i, "nshards": n_pass, "tier": tier,
-                     "rand_passes": 2 if tier == "quick" else 12, "chunks_per_file": 4 if tier == "quick" else 50})
+                     "rand_passes": 2 if tier == "quick" else 12, "chunks_per_file": 2 if tier == "quick" else 50})
     return jobs
 
 
@@ -1193,6 +1273,7 @@ def finish(agg, tier):
             "calls:region.clone_into": 200, "sit:dest_nonempty": 100, "sit:dest_ops_before_insert_point": 40,
             "sit:src_forward_ref": 300, "sit:src_outside_value_ref": 300, "sit:src_multi_block": 300,
             "sit:preseeded_mapper_hit": 50, "independence_histories": 1000, "edits_applied": 10000,
+            "mapper_reuse_calls": 1500, "mapper_reuse_histories_with_internal_values": 500,
             "apply_to_clone_calls": 1500, "apply_raised_injected": 100, "originals_compared_unchanged": 1500}
     for k, n in need.items():
         if c.get(k, 0) < n:
